@@ -470,11 +470,23 @@ pub fn main(cases: &[Case]) {
         }
         return;
     }
+    // the failing paths of the thread checks wait for deadlines (seconds per program): once three programs
+    // of this binary have shown a violation the remaining ones are skipped (counted as such)
+    let mut violating = 0usize;
     for case in cases {
         if only.map(|o| o != case.idx).unwrap_or(false) {
             continue;
         }
+        if violating >= 3 && matches!(mode.name.as_str(), "C08" | "C18" | "C03") {
+            println!("{}", json!({"case": case.idx, "runs": 0, "nontrivial": 0, "classes": {"skipped: three programs of this binary already violate the property": 1}, "samples": [], "violations": [], "infra": []}));
+            continue;
+        }
         let r = catch_unwind(AssertUnwindSafe(|| run_case(case, &mode)));
+        if let Ok(rep) = &r {
+            if !rep.violations.is_empty() {
+                violating += 1;
+            }
+        }
         match r {
             Ok(rep) => println!(
                 "{}",
